@@ -17,6 +17,16 @@ def trap():
     yield "S"
 
 
+try:
+    import async_generator
+except ImportError:
+    async_generator = None
+
+
+class NoBackport(Exception):
+    pass
+
+
 class PM:
     def __bool__(self):
         return False            # managers are falsy objects throughout the corpus
@@ -173,6 +183,12 @@ class Env:
         a = n["async"]
         lines = []
         deco = "@contextlib.asynccontextmanager" if a else "@contextlib.contextmanager"
+        bp = bool(n.get("bp"))
+        if bp:
+            # the async_generator backport: asynccontextmanager over an @async_generator function, `await yield_(v)`
+            if async_generator is None:
+                raise NoBackport()
+            deco = "@async_generator.asynccontextmanager\n@async_generator.async_generator"
         d = "async def" if a else "def"
         body_fn = "helper_%d" % i if n["yf"] else "outer_%d" % i
         if n["yf"]:
@@ -186,14 +202,14 @@ class Env:
             ind += 1
         if root_exiting:
             lines.append("    " * ind + "try:")
-            lines.append("    " * (ind + 1) + "yield %d" % i)
+            lines.append("    " * (ind + 1) + ("await async_generator.yield_(%d)" if bp else "yield %d") % i)
             lines.append("    " * ind + "finally:")
             lines.append("    " * (ind + 1) + "await env.trap()")
         else:
-            lines.append("    " * ind + "yield %d" % i)
+            lines.append("    " * ind + ("await async_generator.yield_(%d)" if bp else "yield %d") % i)
         if n["yf"]:
             lines += [deco, "def outer_%d(env):" % i, "    yield from helper_%d(env)" % i]
-        ns = {"contextlib": contextlib}
+        ns = {"contextlib": contextlib, "async_generator": async_generator}
         exec(compile("\n".join(lines) + "\n", "<verif-gcm-%d>" % i, "exec"), ns)
         return ns["outer_%d" % i](self)
 
@@ -274,7 +290,10 @@ def compare(env, ctx, exp, where, bad, stack_node=None, varname="v"):
             bad.append("%s: inner_stack missing" % where)
         else:
             names = [f.funcname for f in ctx.inner_stack.frames]
-            want = ["%s_%d" % (f["fn"], exp["id"]) for f in exp["frames"]]
+            want = [f["fn"][4:] if f["fn"].startswith("lib:") else "%s_%d" % (f["fn"], exp["id"]) for f in exp["frames"]]
+            shown_lib = [fr.funcname for fr, f in zip(ctx.inner_stack.frames, exp["frames"]) if f["fn"].startswith("lib:") and not fr.hide]
+            if names == want and shown_lib:
+                bad.append("%s: library frames %s of the inner stack are not hidden" % (where, shown_lib))
             if names != want:
                 bad.append("%s: inner_stack frames %s expected %s" % (where, names, want))
             else:
@@ -437,10 +456,13 @@ def run_case(case):
 
 def main():
     data = json.load(open(sys.argv[1]))
-    out = {"n": 0, "mismatches": []}
+    out = {"n": 0, "mismatches": [], "skipped_no_backport": 0}
     for case in data["cases"]:
         try:
             bad = run_case(case)
+        except NoBackport:
+            out["skipped_no_backport"] += 1     # this interpreter has no async_generator package
+            continue
         except BaseException as ex:
             import traceback
             bad = ["harness exception: " + traceback.format_exc()[-600:]]
